@@ -133,10 +133,71 @@ def account(case, viols, info, col):
         col.violation(sig, detail, case.key(), size=size)
 
 
+def handmade_leg(lang, col, n):
+    """Hand-shaped programs (vlib/handprog.py): shapes the mutations special-case and the generator produces rarely
+    (explicit type arguments of generic calls, recursive functions, nested vararg functions, ...) through the stages
+    after generation."""
+    from vlib import handprog
+
+    def one(x):
+        prog, labels = x
+        case = pg.Case(lang, 'handmade', 0, (), {})
+        case.program = prog
+        case.counters = {'generate_expr_calls': len(labels), 'max_generator_depth': 0, 'max_generate_expr_nesting': 0}
+        case.key = lambda: {'lang': lang, 'handmade': labels, 'note': 'see vlib/handprog.py'}
+        boot.reset_case(seed=len(labels))
+        viols, info = run_pipeline(case, col)
+        key = hashlib.sha1(info['texts']['G'].encode()).hexdigest()[:16] if info and info.get('texts', {}).get('G') else repr(labels)
+        col.case(key=('hand', key), nontrivial=bool(info) and info.get('reached') == 'translate-O',
+                 sample=lambda: {'lang': lang, 'handmade_units': labels})
+        col.feature('pipelines_handmade')
+        if info and info.get('to'):
+            col.feature('overwrite_injected_handmade')
+        for sig, detail in viols:
+            col.violation(sig + '/handmade', dict(detail, units=labels), case.key(), size=len(labels))
+    hyp.explore(handprog.programs(lang), one, n, col.shard_seed('hand'))
+
+
+def session_leg(lang, col, n, pool_words=2000):
+    """One long session in one process, as `hephaestus -i N` / a pool worker: n programs generated one after the other
+    (word pool reset before each, as gen_program does), from a thinned identifier pool so that state leaking from one
+    program to the next (a pool that is not restored, a cache that grows) shows within n programs.  A failing program
+    is regenerated from the same seed with a fresh copy of the thinned pool: only a failure that does not reproduce in
+    the fresh state is a violation (history-dependent); one that reproduces is the pool being too small (discarded)."""
+    import random
+    utils = boot._state['utils']
+    full = utils.random.INITIAL_WORDS
+    rnd = random.Random(col.shard_seed('session'))
+    thin = sorted(full)[::max(1, len(full) // pool_words)]
+    try:
+        utils.random.INITIAL_WORDS = set(thin)
+        for i in range(n):
+            seed = rnd.randrange(2 ** 31)
+            case = pg.gen_case(lang, 'seed', seed, (), {}, budget=BUDGET)
+            col.feature('session_programs')
+            if case.error is None:
+                continue
+            utils.random.INITIAL_WORDS = set(thin)
+            again = pg.gen_case(lang, 'seed', seed, (), {}, budget=BUDGET)
+            if again.error is not None:
+                col.feature('session_program_fails_in_fresh_state_too(discarded)')
+                continue
+            col.violation('C18/session/%s-after-%s-programs' % (case.error['type'], 'few' if i < 10 else 'many'),
+                          dict(case.error, programs_before=i, pool_words=len(thin)),
+                          {'lang': lang, 'session': {'seed': col.shard_seed('session'), 'n': n, 'pool_words': pool_words}},
+                          size=i)
+            break
+    finally:
+        utils.random.INITIAL_WORDS = full
+        utils.random.reset_word_pool()
+
+
 def run_shard(spec, col):
     lang = spec['lang']
     boot.init(lang)
     quick = col.tier == 'quick'
+    handmade_leg(lang, col, 40 if quick else 1500)
+    session_leg(lang, col, 22 if quick else 400)
     n_seed = 14 if quick else 400
     n_tape = 50 if quick else 1500
 
@@ -183,6 +244,13 @@ def run_shard(spec, col):
 
 def replay(key, col):
     boot.init(key['lang'])
+    if 'session' in key:
+        ss = key['session']
+        col.shard_seed = lambda tag='': ss['seed']
+        return session_leg(key['lang'], col, ss['n'], ss['pool_words'])
+    if 'handmade' in key:
+        col.feature('handmade_witness_not_replayable_by_key(rerun the check)')
+        return
     case = pg.regen(key, budget=BUDGET)
     viols, info = run_pipeline(case, col)
     account(case, viols, info, col)
